@@ -1,5 +1,4 @@
 import Thm.ProcSimBase
-import Thm.ProcSimStmt
 /-!
 Procedures layer, simulation part — whole programs: the statement hypothesis (`StmtIH` at every fuel, proved case by
 case in the other `Thm/ProcSim*.lean` files) lifted to `Proc.Compile.compile` / `Proc.Ref.run`.
@@ -25,13 +24,13 @@ def WfTop (sg : Sigs) (sc : Scope) : SStmt → Prop
   | st => Wf sg sc st
 
 /-- the scope of the main module: no parameters, not a procedure -/
-def mainScope (prog : SProgram) : Scope := ⟨prog.slots, 0, false⟩
+def mainScope (prog : SProgram) : Scope := ⟨⟨prog.slots, prog.gslots⟩, 0, false, none⟩
 
 /-- the static premise of the program theorem -/
 structure ProgWf (prog : SProgram) : Prop where
   body : WfTop (sigsOf prog.procs) (mainScope prog) prog.body
   procs : ∀ (f : Nat) (d : ProcDecl SStmt), prog.procs[f]? = some d →
-    SlotsOk d ∧ Wf (sigsOf prog.procs) (procScope d) d.body
+    SlotsOk d ∧ Wf (sigsOf prog.procs) (procScope prog.gslots f d) d.body
 
 /-- the world of a program: its reference program, its code, its layout, its signatures -/
 def world (prog : SProgram) : World := ⟨prog.toAst, compile prog, layout prog, sigsOf prog.procs⟩
@@ -54,6 +53,7 @@ theorem top_induction {P : SStmt → Prop} (hseq : ∀ a b, P a → P b → P (.
   | .skip => hatom _ (by intro a b h; cases h)
   | .comment => hatom _ (by intro a b h; cases h)
   | .dim _ _ _ => hatom _ (by intro a b h; cases h)
+  | .sdim _ _ _ => hatom _ (by intro a b h; cases h)
   | .assign _ _ _ _ => hatom _ (by intro a b h; cases h)
   | .print _ _ => hatom _ (by intro a b h; cases h)
   | .data _ _ => hatom _ (by intro a b h; cases h)
@@ -89,7 +89,7 @@ theorem size_seqOf_append (l1 l2 : List SStmt) :
   | nil => simp [seqOf, sizeStmt]
   | cons a rest ih => simp only [List.cons_append, seqOf, sizeStmt, ih]; omega
 
-theorem code_seqOf_append (lay : List Nat) (sfx : String) : ∀ (l1 l2 : List SStmt) (off : Nat),
+theorem code_seqOf_append (lay : Layout) (sfx : String) : ∀ (l1 l2 : List SStmt) (off : Nat),
     compileStmt lay sfx 0 0 off (seqOf (l1 ++ l2)) =
       compileStmt lay sfx 0 0 off (seqOf l1) ++ compileStmt lay sfx 0 0 (off + sizeStmt 0 0 (seqOf l1)) (seqOf l2) := by
   intro l1
@@ -108,9 +108,9 @@ theorem others_seq (a b : SStmt) : others (.seq a b) = others a ++ others b := b
 statements in order -/
 theorem top_spec (W : World) (sc : Scope) (hst : ∀ fuel, StmtIH W fuel) : ∀ (b : SStmt), WfTop W.sg sc b →
     ∀ (fuel off : Nat) (below : List CtxState) (s : St) (σ : Vm),
-    CodeAt W.code off (compileStmt W.lay "" 0 0 off (seqOf (others b))) → σ.pc = off → Rel sc [] below s σ →
+    CodeAt W.code off (compileStmt W.lay "" 0 0 off (seqOf (others b))) → σ.pc = off → Rel W sc [] below s σ →
     ActInv sc 0 0 σ →
-    StmtPost W.code sc below 0 0 (sizeStmt 0 0 (seqOf (others b))) off σ (Proc.Ref.exec W.P fuel (desugar b) s) := by
+    StmtPost W sc below 0 0 (sizeStmt 0 0 (seqOf (others b))) off σ (Proc.Ref.exec W.P fuel (desugar b) s) := by
   refine top_induction ?_ ?_
   · intro a b iha ihb hw fuel off below s σ hc hpc hr ha
     simp only [WfTop] at hw
@@ -139,7 +139,7 @@ theorem top_spec (W : World) (sc : Scope) (hst : ∀ fuel, StmtIH W fuel) : ∀ 
       | illFormed => exact h1
   · intro st hns hw fuel off below s σ hc hpc hr ha
     have hskip : ∀ (st' : SStmt), others st' = [] → desugar st' = .skip →
-        StmtPost W.code sc below 0 0 (sizeStmt 0 0 (seqOf (others st'))) off σ
+        StmtPost W sc below 0 0 (sizeStmt 0 0 (seqOf (others st'))) off σ
           (Proc.Ref.exec W.P fuel (desugar st') s) := by
       intro st' ho hd
       rw [ho, hd]
@@ -149,7 +149,7 @@ theorem top_spec (W : World) (sc : Scope) (hst : ∀ fuel, StmtIH W fuel) : ∀ 
         simp only [Proc.Ref.exec, StmtPost, seqOf, sizeStmt, Nat.add_zero]
         exact ⟨σ, Steps.refl σ, hpc, hr, SameStacks.refl σ⟩
     have hatom : others st = [st] → Wf W.sg sc st →
-        StmtPost W.code sc below 0 0 (sizeStmt 0 0 (seqOf (others st))) off σ
+        StmtPost W sc below 0 0 (sizeStmt 0 0 (seqOf (others st))) off σ
           (Proc.Ref.exec W.P fuel (desugar st) s) := by
       intro ho hwf
       rw [ho] at hc ⊢
@@ -162,6 +162,7 @@ theorem top_spec (W : World) (sc : Scope) (hst : ∀ fuel, StmtIH W fuel) : ∀ 
     | data items p => exact hskip _ (by simp [others, topLevel, isData]) rfl
     | comment => exact hatom (by simp [others, topLevel, isData]) (by simpa only [WfTop] using hw)
     | dim x t p => exact hatom (by simp [others, topLevel, isData]) (by simpa only [WfTop] using hw)
+    | sdim x t p => exact hatom (by simp [others, topLevel, isData]) (by simpa only [WfTop] using hw)
     | assign x t e p => exact hatom (by simp [others, topLevel, isData]) (by simpa only [WfTop] using hw)
     | print items p => exact hatom (by simp [others, topLevel, isData]) (by simpa only [WfTop] using hw)
     | read vars p => exact hatom (by simp [others, topLevel, isData]) (by simpa only [WfTop] using hw)
@@ -185,6 +186,8 @@ structure DKeeps (σ τ : Vm) : Prop where
   regStack : τ.regStack = σ.regStack
   vals : τ.vals = σ.vals
   paths : τ.paths = σ.paths
+  glob : τ.glob = σ.glob
+  statics : τ.statics = σ.statics
   out : τ.out = σ.out
   skipNewline : τ.skipNewline = σ.skipNewline
   dataIdx : τ.dataIdx = σ.dataIdx
@@ -194,10 +197,11 @@ structure DKeeps (σ τ : Vm) : Prop where
   marks : τ.marks = σ.marks
   trace : τ.trace = σ.trace
 
-theorem DKeeps.refl (σ : Vm) : DKeeps σ σ := ⟨rfl, rfl, rfl, rfl, rfl, rfl, rfl, rfl, rfl, rfl, rfl⟩
+theorem DKeeps.refl (σ : Vm) : DKeeps σ σ := ⟨rfl, rfl, rfl, rfl, rfl, rfl, rfl, rfl, rfl, rfl, rfl, rfl, rfl⟩
 
 theorem DKeeps.trans {a b c : Vm} (h₁ : DKeeps a b) (h₂ : DKeeps b c) : DKeeps a c :=
-  ⟨h₂.regStack.trans h₁.regStack, h₂.vals.trans h₁.vals, h₂.paths.trans h₁.paths, h₂.out.trans h₁.out,
+  ⟨h₂.regStack.trans h₁.regStack, h₂.vals.trans h₁.vals, h₂.paths.trans h₁.paths, h₂.glob.trans h₁.glob,
+    h₂.statics.trans h₁.statics, h₂.out.trans h₁.out,
     h₂.skipNewline.trans h₁.skipNewline, h₂.dataIdx.trans h₁.dataIdx, h₂.queue.trans h₁.queue,
     h₂.funRes.trans h₁.funRes, h₂.rets.trans h₁.rets, h₂.marks.trans h₁.marks, h₂.trace.trans h₁.trace⟩
 
@@ -232,7 +236,7 @@ theorem data_items (code : Code) (f : Val × Pos → Code)
     · rw [hp]; simp only [List.length_cons]; omega
     · rw [hcx']; simp
     · exact hd
-    · exact DKeeps.trans (show DKeeps σ σ2 from ⟨rfl, rfl, rfl, rfl, rfl, rfl, rfl, rfl, rfl, rfl, rfl⟩) hk
+    · exact DKeeps.trans (show DKeeps σ σ2 from ⟨rfl, rfl, rfl, rfl, rfl, rfl, rfl, rfl, rfl, rfl, rfl, rfl, rfl⟩) hk
 
 theorem mapM_id_some : ∀ (vs : List Val), (vs.map some).mapM id = some vs
   | [] => rfl
@@ -242,7 +246,7 @@ theorem mapM_id_some : ∀ (vs : List Val), (vs.map some).mapM id = some vs
 
 /-- one DATA statement: `BeginCollectArguments; (LoadIntoA v; PushUnnamedByVal)*; PushStack; BuiltInSub Data;
 PopStack` appends its items to the data segment -/
-theorem data_stmt (code : Code) (lay : List Nat) (items : List (Val × Pos)) (p : Pos) (sfx : String) (off : Nat)
+theorem data_stmt (code : Code) (lay : Layout) (items : List (Val × Pos)) (p : Pos) (sfx : String) (off : Nat)
     (σ : Vm) (c : CtxState) (rest : List CtxState)
     (hc : CodeAt code off (compileStmt lay sfx 0 0 off (.data items p))) (hpc : σ.pc = off)
     (hcx : σ.ctx = c :: rest) :
@@ -278,11 +282,11 @@ theorem data_stmt (code : Code) (lay : List Nat) (items : List (Val × Pos)) (p 
   refine ⟨τ4, (Steps.cons s1 st1).trans (Steps.cons s2 (Steps.cons s3 (Steps.one s4))), ?_, ?_, hcx.symm, ?_⟩
   · simp only [τ4, τ3, τ2, Vm.advance, hp1, sizeStmt]; omega
   · simp only [τ4, τ3, τ2, Vm.advance, hd1, σ1]
-  · exact DKeeps.trans (DKeeps.trans (show DKeeps σ σ1 from ⟨rfl, rfl, rfl, rfl, rfl, rfl, rfl, rfl, rfl, rfl, rfl⟩) hk1)
-      (show DKeeps τ1 τ4 from ⟨rfl, rfl, rfl, rfl, rfl, rfl, rfl, rfl, rfl, rfl, rfl⟩)
+  · exact DKeeps.trans (DKeeps.trans (show DKeeps σ σ1 from ⟨rfl, rfl, rfl, rfl, rfl, rfl, rfl, rfl, rfl, rfl, rfl, rfl, rfl⟩) hk1)
+      (show DKeeps τ1 τ4 from ⟨rfl, rfl, rfl, rfl, rfl, rfl, rfl, rfl, rfl, rfl, rfl, rfl, rfl⟩)
 
 /-- the hoisted DATA statements, run in order, build the data segment -/
-theorem data_list (code : Code) (lay : List Nat) (sfx : String) : ∀ (l : List SStmt), (∀ x ∈ l, isData x = true) →
+theorem data_list (code : Code) (lay : Layout) (sfx : String) : ∀ (l : List SStmt), (∀ x ∈ l, isData x = true) →
     ∀ (off : Nat) (σ : Vm) (c : CtxState) (rest : List CtxState),
       CodeAt code off (compileStmt lay sfx 0 0 off (seqOf l)) → σ.pc = off → σ.ctx = c :: rest →
       ∃ τ, Steps code σ τ ∧ τ.pc = off + sizeStmt 0 0 (seqOf l) ∧ τ.data = σ.data ++ l.flatMap dataOf ∧
@@ -312,28 +316,40 @@ theorem data_list (code : Code) (lay : List Nat) (sfx : String) : ∀ (l : List 
 
 /-! ### the procedures are where the layout says -/
 
-theorem procs_at (lay0 : List Nat) (code : Code) : ∀ (procs : List (ProcDecl SStmt)) (off : Nat),
+theorem procs_at (lay0 : Layout) (code : Code) : ∀ (procs : List (ProcDecl SStmt)) (off : Nat),
     CodeAt code off (compileProcs lay0 off procs) → ∀ (f : Nat) (d : ProcDecl SStmt), procs[f]? = some d →
-    CodeAt code ((layoutFrom off procs).getD f 0) (compileProc lay0 ((layoutFrom off procs).getD f 0) d)
+    CodeAt code ((layoutFrom off procs).addr f) (compileProc lay0 ((layoutFrom off procs).addr f) d)
   | [], _, _, f, d, h => by simp at h
   | d0 :: rest, off, hc, 0, d, h => by
     simp only [List.getElem?_cons_zero, Option.some.injEq] at h
     subst h
     simp only [compileProcs] at hc
-    simpa [layoutFrom] using hc.append_left
+    simpa [layoutFrom, Layout.addr] using hc.append_left
   | d0 :: rest, off, hc, f + 1, d, h => by
     simp only [List.getElem?_cons_succ] at h
     simp only [compileProcs] at hc
     have hcr := hc.append_right
     rw [len_proc] at hcr
     have := procs_at lay0 code rest (off + sizeProc d0) hcr f d h
+    simpa [layoutFrom, Layout.addr] using this
+
+/-- the layout records the STATIC flag of every procedure -/
+theorem layoutFrom_static : ∀ (procs : List (ProcDecl SStmt)) (off : Nat) (f : Nat) (d : ProcDecl SStmt),
+    procs[f]? = some d → ((layoutFrom off procs).getD f (0, false)).2 = d.static
+  | [], _, f, d, h => by simp at h
+  | d0 :: rest, off, 0, d, h => by
+    simp only [List.getElem?_cons_zero, Option.some.injEq] at h
+    subst h
+    simp [layoutFrom]
+  | d0 :: rest, off, f + 1, d, h => by
+    simp only [List.getElem?_cons_succ] at h
+    have := layoutFrom_static rest (off + sizeProc d0) f d h
     simpa [layoutFrom] using this
 
 /-! ### the program theorem -/
 
 /-- the start state of the reference semantics -/
-def startSt (prog : SProgram) : St :=
-  { env := prog.slots.map zeroOf, out := Print.WritePrinter.new, data := dataOf prog.body, dataIdx := 0 }
+def startSt (prog : SProgram) : St := Proc.Ref.St.init prog.toAst
 
 theorem run_eq (prog : SProgram) (fuel : Nat) :
     Proc.Ref.run fuel prog.toAst = Proc.Ref.exec prog.toAst fuel (desugar prog.body) (startSt prog) := rfl
@@ -341,16 +357,24 @@ theorem run_eq (prog : SProgram) (fuel : Nat) :
 theorem typed_init (sl : List Ty) : Typed sl (sl.map zeroOf) := by
   refine ⟨by simp, ?_⟩
   intro x t hx
-  exact ⟨zeroOf t, by simp [List.getElem?_map, hx], zeroOf_tag t⟩
+  exact ⟨zeroOf t, by simp [List.getElem?_map, hx], by cases t <;> rfl⟩
 
-theorem frameRel_init (sc : Scope) (hnp : sc.np = 0) : FrameRel sc [] (sc.slots.map zeroOf) := by
-  refine ⟨?_, fun i hi => by omega⟩
+theorem tabRel_init (sl : List Ty) : TabRel sl [] (sl.map zeroOf) := by
   intro x t hx
   simp [getVar, List.getD, List.getElem?_map, hx]
 
+theorem frameRel_init (sc : Scope) (hnp : sc.np = 0) : FrameRel sc [] (sc.slots.loc.map zeroOf) :=
+  ⟨tabRel_init sc.slots.loc, fun i hi => by omega⟩
+
+/-- a block that does not exist yet represents the all-zero environment -/
+theorem statRel_init (sl : List Ty) : StatRel sl none (sl.map zeroOf) := by
+  refine ⟨typed_init sl, ?_⟩
+  intro x t hx
+  simp [ogetVar, List.getD, List.getElem?_map, hx]
+
 /-- the procedures of a well-formed program are `ProcsOk` in the program's world -/
 theorem procsOk_world (prog : SProgram) (hw : ProgWf prog) : ProcsOk (world prog) prog.procs := by
-  refine ⟨rfl, rfl, ?_, hw.procs⟩
+  refine ⟨rfl, rfl, ?_, fun f d hd => layoutFrom_static prog.procs _ f d hd, hw.procs⟩
   intro f d hd
   have hall : CodeAt (compile prog) 0
       (compileStmt (layout prog) "" 0 0 0 (seqOf (datas prog.body ++ others prog.body)) ++ [(.halt, maxPos)] ++
@@ -391,13 +415,25 @@ theorem compile_correct_of (prog : SProgram) (fuel : Nat) (hw : ProgWf prog)
     data_list (compile prog) (layout prog) "" (datas prog.body) (datas_isData prog.body) 0 Vm.init (.frame []) []
       hcd rfl rfl
   rw [Nat.zero_add] at hp1
-  have hrel : Rel (mainScope prog) [] [] (startSt prog) σ1 := by
-    refine ⟨trivial, ⟨[], by rw [hcx1]; rfl, frameRel_init (mainScope prog) rfl⟩, typed_init prog.slots,
-      by rw [hk1.out]; rfl, ?_, by rw [hk1.dataIdx]; rfl, by rw [hk1.queue]; rfl, by rw [hk1.funRes]; rfl⟩
-    rw [hd1, ← dataOf_eq]; simp [Vm.init, startSt]
+  have hrel : Rel (world prog) (mainScope prog) [] [] (startSt prog) σ1 := by
+    refine ⟨trivial, rfl, ⟨[], by rw [hcx1]; rfl, ?_, frameRel_init (mainScope prog) rfl⟩, typed_init prog.slots, rfl,
+      ?_, typed_init prog.gslots, ?_, ?_, by rw [hk1.out]; rfl, ?_, by rw [hk1.dataIdx]; rfl, by rw [hk1.queue]; rfl,
+      by rw [hk1.funRes]; rfl⟩
+    · unfold Vm.curFrame; rw [hcx1]; rfl
+    · rw [hk1.glob]; exact tabRel_init prog.gslots
+    · intro f d hd hs
+      have e1 : σ1.statics f = none := by rw [hk1.statics]; rfl
+      have e2 : (startSt prog).statics f = d.slots.map zeroOf := by
+        show (match (world prog).P.procs[f]? with | some d => d.slots.map zeroOf | none => []) = _
+        rw [hd]
+      rw [e1, e2]
+      exact statRel_init d.slots
+    · intro f h
+      simp [mainScope] at h
+    · rw [hd1, ← dataOf_eq]; simp [Vm.init, startSt, Proc.Ref.St.init, SProgram.toAst]
   have hact : ActInv (mainScope prog) 0 0 σ1 :=
     ⟨fun _ => by rw [hk1.skipNewline]; rfl, fun h => by simp [mainScope] at h⟩
-  have hs : StmtPost (compile prog) (mainScope prog) [] 0 0 _ _ σ1
+  have hs : StmtPost (world prog) (mainScope prog) [] 0 0 _ _ σ1
       (Proc.Ref.exec prog.toAst fuel (desugar prog.body) (startSt prog)) :=
     top_spec (world prog) (mainScope prog) hst prog.body hw.body fuel _ [] (startSt prog) σ1 hco hp1 hrel hact
   rw [run_eq]
